@@ -161,7 +161,7 @@ impl World {
             "tables": self.tables.iter().zip(&self.layouts).map(|(t, l)| serde_json::json!({
                 "name": t.name, "rows": t.rows,
                 "cols": t.cols.iter().map(|c| format!("{}:{:?}", c.name, c.ty)).collect::<Vec<_>>(),
-                "files": l.file_cuts.len() + 1, "row_group_rows": l.row_group_rows,
+                "files": l.file_cuts.len() + 1, "row_group_rows": l.row_group_rows, "empty_row_groups": l.empty_row_groups,
                 "dictionary": l.dictionary, "stats": l.stats, "same_name_dirs": l.same_name_dirs,
             })).collect::<Vec<_>>(),
         })
